@@ -88,6 +88,30 @@ CHECKS = {
 
 NOT_APPLICABLE = {}
 
+# what the seeded-change rounds (DESIGN 7.4) added to each check's enumeration, appended to the level text
+ADDED = {
+ "C01": "fractional-second event times, several impulses of one agent at one instant, configured span equal to / shorter than the run, timestamps written with UTC offsets.",
+ "C02": "real job results of every outcome mix merged through processResults into a real engine and the stored rows; sensors built through the sensor_addition event round trip; multi-engine scenarios replaying each sensor's pointing history.",
+ "C03": "dynamics obtained through dynamicsFactory at a non-zero clock time (epoch_split / epoch_twin), fractional-second epochs (force_epoch / epoch_resolution), station keeping (one call vs every split), schedules with stale events.",
+ "C04": "moving observers for the razel/radec functions, memory of previous calls, instants in the last minute of a day and on year boundaries.",
+ "C05": "the runResonaate entry point with decimal hour values, output step = 3 x physics past the configured span, host time zones other than UTC, start instants with a fractional second.",
+ "C06": "multi-step histories with and without redraw, tunings built from configuration, the number type / container of every input (ints, float32, lists, scalars).",
+ "C07": "rewards and engines built through the configuration routes (every ordered metric list with repeats), every tuple of sensor lists for 1-3 engines through the real ScenarioBuilder.",
+ "C08": "jobs carrying a hit and a miss of one target, target and sensor sets that change during the run, two tasking engines with membership invariants.",
+ "C09": "runs past the configured span, start instants with a fractional second, imported agents, a sensor time bias, and every observation / miss delivered through the seam must be stored exactly once.",
+ "C10": "agents added mid-run as exact twins, imported sensors, a target shared by two engines (identical state legal, different state refused), non-multiple output steps, an estimate within centimetres of the truth.",
+ "C11": "a calendar lattice (31 Jan .. 1 Mar of leap and common years), scenario runs across those midnights with a per-step sidereal-rotation check, a day-of-year sweep.",
+ "C12": "retrograde-equatorial and circular special cases through every conversion route and through the state configuration classes.",
+ "C13": "batched (unordered, repeated, strided) epoch arrays for every body and kernel segment, dynamics obtained through dynamicsFactory at clock time T, a calendar epoch lattice (31 Dec of leap years, February boundaries).",
+ "C14": "real Optical / Radar / AdvRadar isVisible verdicts against an ECI oracle for sensor and target at different radii, directions within arcseconds of the zenith / nadir.",
+ "C15": "impulses coincident with burn start / end, propagateBulk with several events, zero-length burns, back-to-back burns in both queue orders.",
+ "C16": "multi-turn angles, stale stacked R across updates on one filter object, every ordered selection of measurement component labels through Measurement.fromMeasurementLabels and the sensor config path.",
+ "C17": "the DetectedManeuver record built by a real EstimateAgent (serial and job path), histories that pass through adaptive estimation and back.",
+ "C18": "1-3 radar / optical observation sets at the step that opens MMAE, realistic magnitudes (LEO-GEO radii, 10 cm - 1 km sigmas) against an exact-arithmetic mixture, the real initialize() over an in-memory database with initial pruning.",
+ "C19": "observation import with realtime observation on, a sensor id re-used during the run, day-long runs, agent epoch and Earth-fixed views, output rows, the importer file re-created at one path between runs.",
+ "C20": "near-zenith / nadir / azimuth-wrap observation geometries, IOD obtained through a real EstimateAgent created mid-run, every configured solver label.",
+}
+
 def main():
     props = [json.loads(l) for l in open(os.path.join(ROOT, "properties.jsonl"))]
     ids = [p["id"] for p in props]
@@ -107,7 +131,7 @@ def main():
             "evidence_file": f"/verif/evidence/{pid}.json",
             "replay_cmd_template": f"./check {pid} --replay {{path}}",
             "engine": c.get("engine", "verif"),
-            "level_claimed": {"category": c["level"], "text": c["text"], "design_ref": c["design"]},
+            "level_claimed": {"category": c["level"], "text": c["text"] + (" Added by the seeded-change rounds: " + ADDED[pid] if pid in ADDED else ""), "design_ref": c["design"]},
             "level_note": c["note"],
             "technique": c["technique"],
         })
